@@ -224,9 +224,9 @@ class Filenames(object):
                         value = currentns[key].split()
                         newvalue = []
                         for i in range(int(format)):
-                            newvalue.append(value.pop(0))
                             if not value:
                                 break
+                            newvalue.append(value.pop(0))
                         currentns[key] = ' '.join(newvalue)
                 try:
                     # Strip formats
